@@ -29,6 +29,6 @@ Print Assumptions C04_monitor_flags_progress_after_error.
 
 Theorem C04_monitor_flags_armed_timer_after_error :
   viol_codes (mon_run (init_ms Server false)
-     [BReport 4 false; BReport 39 true; BCloseData KUser; BClosedCb false; BSnap 39 true true 0 false]) = [22].
+     [BReport 4 false; BReport 39 true; BCloseData KUser; BClosedCb false; BSnap 39 true true 0 false]) = [22; 80].
 Proof. exact mon_flags_armed_timer_after_error. Qed.
 Print Assumptions C04_monitor_flags_armed_timer_after_error.
